@@ -365,7 +365,8 @@ def evaluate(d):
 
     with tapemod.Tape(rng=rng, numpy_too=(fam == "cma")) as tp:
         rec = Rec3(tp, inds)
-        rec.check_frame = d.get("nbr") != -1      # 2000 natural individuals: the per-call snapshots are quadratic
+        # 2000 natural individuals / big populations: the per-call snapshots of all other objects are quadratic
+        rec.check_frame = d.get("nbr") != -1 and len(inds) <= 64 and d.get("lam", 0) <= 64
         heap_tok = ";".join(rec.obj3(x) for x in inds) if inds else "-"
         if loop != "gu":
             rec.wrap(tb)
@@ -695,18 +696,18 @@ def prob(rng):
     return 0.0 if r < 0.15 else 1.0 if r < 0.3 else rng.randint(0, 8) / 8.0
 
 
-def mk_case(rng, loop=None, ngen=None):
+def mk_case(rng, loop=None, ngen=None, big=False):
     loop = loop or rng.choice(["simple", "simple", "plus", "comma", "plusbest", "harm", "gu", "pso", "nsga2", "gpsimple"])
     d = {"seed": rng.getrandbits(32), "ngen": rng.randint(0, 6) if ngen is None else ngen, "hofsize": rng.choice([1, 1, 2, 3]),
          "hof": rng.random() < 0.7, "stats": rng.random() < 0.7, "verbose": rng.random() < 0.2}
     if loop in ("gu", "pso"):
         dim = rng.randint(2, 3)
         if loop == "gu":
-            d.update(loop="gu", fam="cma", weights=[-1.0], inds=[], lam=rng.randint(3, 6),
+            d.update(loop="gu", fam="cma", weights=[-1.0], inds=[], lam=rng.choice([129, 160, 257]) if big else rng.randint(3, 6),
                      centroid=[rng.randint(-4, 4) / 2.0 for _ in range(dim)], sigma=rng.choice([0.5, 1.0, 2.0]))
             d["ngen"] = min(d["ngen"], 4)
         else:
-            d.update(loop="gu", fam="pso", weights=[-1.0], inds=[], lam=rng.randint(1, 6), dim=dim,
+            d.update(loop="gu", fam="pso", weights=[-1.0], inds=[], lam=rng.choice([129, 160, 257]) if big else rng.randint(1, 6), dim=dim,
                      delfit=rng.random() < 0.3, renew=rng.random() < 0.3, newlist=rng.random() < 0.5,
                      sortupd=rng.random() < 0.5)
         return d
@@ -719,6 +720,8 @@ def mk_case(rng, loop=None, ngen=None):
     if nsga:
         loop = "plus"
     n = rng.randint(0, 8) if loop == "simple" else rng.randint(1, 8)
+    if big:
+        n = rng.choice([129, 130, 160, 257])      # beyond the sizes at which library code switches strategy (e.g. 128)
     d.update(loop=loop, fam=fam, inds=mk_inds(rng, fam, n), indpb=rng.choice([0.0, 0.5, 0.5, 1.0]))
     if fam == "gp":
         mates, muts = c02.OPS["tree"]
@@ -754,7 +757,7 @@ def mk_case(rng, loop=None, ngen=None):
         d["rho"] = rng.choice([0.9, 0.9, 0.5, 1.0])
     else:
         d["mutpb"] = rng.choice([0.0, 1.0 - d["cxpb"], rng.randint(0, 8) / 8.0 * (1.0 - d["cxpb"])])
-        lam = rng.randint(1, 8)
+        lam = rng.choice([129, 160, 257]) if big else rng.randint(1, 8)
         mu = rng.randint(1, lam)
         if loop == "comma" and rng.random() < 0.08:
             mu = lam + rng.randint(1, 2)          # assertion domain
@@ -773,6 +776,20 @@ def generate(tier, rng, mult):
             # every loop with and without hall of fame / Statistics / verbose output
             d["hof"], d["stats"], d["verbose"] = k % 2 == 0, k % 4 < 2, k == 3
             yield d
+    # big populations / offspring batches (> 128, > 256): minimisation and maximisation, small halls of fame
+    for k, loop in enumerate(["simple", "plus", "comma", "plusbest", "gu", "pso", "nsga2", "gpsimple", "harm",
+                              "simple", "plus", "gu"]):
+        d = mk_case(rng, loop, 1 if k < 9 else 2, big=True)
+        d["hof"], d["stats"], d["verbose"] = True, True, False
+        d["hofsize"] = (1, 3, 5)[k % 3]
+        if len(d["weights"]) == 1:
+            d["weights"] = [-1.0] if k % 2 == 0 else [1.0]
+            if d.get("sel") == "roulette":
+                d["sel"] = "tourn3"
+        if loop == "harm":
+            d["inds"] = d["inds"][:130]
+            d["nbr"] = max(d["nbr"], len(d["inds"]))
+        yield d
     # gp.harm with the default nbrindsmodel=-1 (2000 natural individuals per generation)
     for _ in range(10 if thorough else 1):
         d = mk_case(rng, "harm", 1)
